@@ -16,6 +16,31 @@ use std::collections::HashSet;
 use std::sync::Arc;
 use std::time::Instant;
 
+/// Verification hook (H1): deterministic clock for `TokenBucket`, compiled only under
+/// `--cfg kyrodb_verif`. `now()` is a fixed base instant plus an offset that only the
+/// verification harness advances.
+#[cfg(kyrodb_verif)]
+pub mod verif_clock {
+    use std::sync::atomic::{AtomicU64, Ordering};
+    use std::sync::OnceLock;
+    use std::time::{Duration, Instant};
+
+    static BASE: OnceLock<Instant> = OnceLock::new();
+    static OFFSET_NANOS: AtomicU64 = AtomicU64::new(0);
+
+    pub fn now() -> Instant {
+        *BASE.get_or_init(Instant::now) + Duration::from_nanos(OFFSET_NANOS.load(Ordering::SeqCst))
+    }
+
+    pub fn advance_nanos(nanos: u64) {
+        OFFSET_NANOS.fetch_add(nanos, Ordering::SeqCst);
+    }
+
+    pub fn offset_nanos() -> u64 {
+        OFFSET_NANOS.load(Ordering::SeqCst)
+    }
+}
+
 /// Token bucket rate limiter
 ///
 /// Implements token bucket algorithm with smooth refill:
@@ -48,6 +73,16 @@ impl TokenBucket {
     ///
     /// Initially full (tokens = capacity).
     pub fn new(max_qps: u32) -> Self {
+        #[cfg(kyrodb_verif)]
+        {
+            return Self {
+                capacity: max_qps,
+                tokens: max_qps as f64,
+                refill_rate: max_qps as f64,
+                last_refill: verif_clock::now(),
+            };
+        }
+        #[allow(unreachable_code)]
         Self {
             capacity: max_qps,
             tokens: max_qps as f64,
@@ -86,6 +121,11 @@ impl TokenBucket {
     /// Tokens = min(capacity, current_tokens + (elapsed_seconds * refill_rate))
     fn refill(&mut self) {
         let now = Instant::now();
+        #[cfg(kyrodb_verif)]
+        let now = {
+            let _ = now;
+            verif_clock::now()
+        };
         let elapsed = now.duration_since(self.last_refill).as_secs_f64();
 
         if elapsed > 0.0 {
